@@ -1402,13 +1402,13 @@ CMR_ERROR CMRtwosumDecomposeFirst(CMR* cmr, CMR_CHRMAT* matrix, CMR_SEPA* sepa, 
 
   /* Free local arrays. */
   CMR_CALL( CMRfreeStackArray(cmr, &denseColumn) );
-  if (hasColumnsToFirst)
+  if (!hasColumnsToFirst)
     CMR_CALL( CMRfreeStackArray(cmr, &columnsToFirst) );
-  if (hasRowsToFirst)
+  if (!hasRowsToFirst)
     CMR_CALL( CMRfreeStackArray(cmr, &rowsToFirst) );
-  if (hasFirstColumnsOrigin)
+  if (!hasFirstColumnsOrigin)
     CMR_CALL( CMRfreeStackArray(cmr, &firstColumnsOrigin) );
-  if (hasFirstRowsOrigin)
+  if (!hasFirstRowsOrigin)
     CMR_CALL( CMRfreeStackArray(cmr, &firstRowsOrigin) );
 
   return CMR_OKAY;
@@ -1578,13 +1578,13 @@ CMR_ERROR CMRtwosumDecomposeSecond(CMR* cmr, CMR_CHRMAT* matrix, CMR_SEPA* sepa,
 
   /* Free local arrays. */
   CMR_CALL( CMRfreeStackArray(cmr, &denseColumn) );
-  if (hasColumnsToSecond)
+  if (!hasColumnsToSecond)
     CMR_CALL( CMRfreeStackArray(cmr, &columnsToSecond) );
-  if (hasRowsToSecond)
+  if (!hasRowsToSecond)
     CMR_CALL( CMRfreeStackArray(cmr, &rowsToSecond) );
-  if (hasSecondColumnsOrigin)
+  if (!hasSecondColumnsOrigin)
     CMR_CALL( CMRfreeStackArray(cmr, &secondColumnsOrigin) );
-  if (hasSecondRowsOrigin)
+  if (!hasSecondRowsOrigin)
     CMR_CALL( CMRfreeStackArray(cmr, &secondRowsOrigin) );
 
   return CMR_OKAY;
